@@ -4,6 +4,13 @@ import fcntl, hashlib, os, shutil, subprocess, sys, time, glob
 
 VERIF = os.path.dirname(os.path.dirname(os.path.abspath(__file__)))
 REPO = os.environ.get("VERIF_REPO", "/repo")
+# root of the source tree the current rule run is about (the battery points it at its scratch copy for AST-level rules)
+SRC_ROOT = [None]
+
+
+def src_root():
+    return SRC_ROOT[0] or REPO
+
 CACHE = os.environ.get("VERIF_CACHE", os.path.join(VERIF, ".cache"))
 DRIVER_DIR = os.path.join(VERIF, "driver")
 DRIVER_BIN = os.path.join(DRIVER_DIR, "target", "release", "cascette-facts")
